@@ -371,3 +371,144 @@ Fixpoint all2 {A B} (f : A -> B -> bool) (l : list A) (m : list B) : bool :=
 (* the model reproduces the observed history step by step *)
 Definition tie_ok (c : list node * list edge * list op * list obs) : bool :=
   let '(ns, es, ops, observed) := c in all2 obs_matches (full_trace ns es ops) observed.
+
+(* ---- construction histories (what Workflow._create_graph does: add_nodes, add_edges, then
+   sorted_nodes): add_nodes is only given nodes that have no dictionary entry yet *)
+Definition new_keys_ok (g : graph) (new : list node) : bool :=
+  forallb (fun n => negb (memb n (dkeys (g_preds g))) && negb (memb n (dkeys (g_succs g)))) new.
+Definition build_ok (g : graph) (o : op) : bool :=
+  match o with
+  | AddNodes new => new_keys_ok g new
+  | AddEdges _ | Sort | GetSorted | Copy => true
+  | _ => false
+  end.
+Fixpoint run_build (g : graph) (ops : list op) : bool :=
+  match ops with
+  | [] => true
+  | o :: r => build_ok g o && match step g o with Ok g' => run_build g' r | Err _ => true end
+  end.
+
+(* ==========================================================================================
+   GraphSched — the two submitter loops of pydra/engine/submitter.py, as far as their termination
+   is concerned (C18): Submitter.get_runnable_tasks + NodeExecution.get_runnable_tasks (the
+   scan of graph.sorted_nodes with the `not_started` break), expand_workflow (synchronous) and
+   expand_workflow_async (futures, max_concurrent, the 10-poll stall detector).
+   One job per node (no splitting); "running" jobs (lock file seen) are not distinguished from
+   queued ones: both are not done, and a running job is always a pending future. *)
+Inductive nstat := NotStarted | Queued | Succ | Errored | Unrunnable.
+Definition smap := node -> nstat.
+Definition sset (m : smap) (n : node) (s : nstat) : smap := fun x => if Nat.eqb x n then s else m x.
+Definition done_st (s : nstat) : bool := match s with Succ | Errored | Unrunnable => true | _ => false end.
+Definition started_st (s : nstat) : bool := match s with NotStarted => false | _ => true end.
+Definition failed_st (s : nstat) : bool := match s with Errored | Unrunnable => true | _ => false end.
+Definition plist (pd : dict) (n : node) : list node := match dget pd n with Some l => l | None => [] end.
+
+(* NodeExecution.get_runnable_tasks for one node *)
+Definition node_poll (pd : dict) (m : smap) (n : node) : smap :=
+  let ps := plist pd n in
+  if existsb (fun p => failed_st (m p)) ps then
+    match m n with NotStarted => sset m n Unrunnable | _ => m end
+  else if forallb (fun p => done_st (m p)) ps then
+    match m n with NotStarted => sset m n Queued | _ => m end
+  else m.
+
+(* Submitter.get_runnable_tasks: returns the new statuses and the queued jobs met by the scan *)
+Fixpoint poll_scan (pd : dict) (order : list node) (m : smap) (not_started tasks : list node) : smap * list node :=
+  match order with
+  | [] => (m, tasks)
+  | n :: r =>
+      if done_st (m n) then poll_scan pd r m not_started tasks else
+      if existsb (fun p => memb p not_started) (plist pd n) then (m, tasks) else
+      let ns' := if started_st (m n) then not_started else n :: not_started in
+      let m' := node_poll pd m n in
+      poll_scan pd r m' ns' (match m' n with Queued => tasks ++ [n] | _ => tasks end)
+  end.
+Definition poll (pd : dict) (order : list node) (m : smap) : smap * list node := poll_scan pd order m [] [].
+
+Definition all_done (order : list node) (m : smap) : bool := forallb (fun n => done_st (m n)) order.
+
+Inductive outcome :=
+| Finished (ran : list node) (final : list (node * nstat))   (* the loop condition became false *)
+| JobError (ran : list node)                                 (* debug worker: the failing job's exception propagates *)
+| StallError                                                 (* RuntimeError of the stall detector *)
+| OutOfFuel.
+
+Definition snapshot_of (order : list node) (m : smap) : list (node * nstat) := map (fun n => (n, m n)) order.
+
+(* expand_workflow: `fails n` says whether the body of node n raises *)
+Fixpoint run_tasks (fails : node -> bool) (tasks : list node) (m : smap) (ran : list node) : smap * list node * bool :=
+  match tasks with
+  | [] => (m, ran, false)
+  | j :: r => if fails j then (sset m j Errored, ran ++ [j], true)
+              else run_tasks fails r (sset m j Succ) (ran ++ [j])
+  end.
+Fixpoint sync_loop (fuel : nat) (pd : dict) (order : list node) (fails : node -> bool)
+         (m : smap) (tasks ran : list node) : outcome :=
+  if nonempty tasks || negb (all_done order m) then
+    match fuel with
+    | 0 => OutOfFuel
+    | S f =>
+        let '(m1, ran1, raised) := run_tasks fails tasks m ran in
+        if raised then JobError ran1 else
+        let (m2, tasks2) := poll pd order m1 in
+        sync_loop f pd order fails m2 tasks2 ran1
+    end
+  else Finished ran (snapshot_of order m).
+Definition run_sync (fuel : nat) (pd : dict) (order : list node) (fails : node -> bool) : outcome :=
+  let m0 : smap := fun _ => NotStarted in
+  let (m1, tasks) := poll pd order m0 in
+  sync_loop fuel pd order fails m1 tasks [].
+
+(* the stall detector: `while not tasks and any(not n.done ...): tasks = poll; ii += 1; if ii > 10: raise` *)
+Fixpoint stall (polls : nat) (pd : dict) (order : list node) (m : smap) (tasks : list node) : option (smap * list node) :=
+  if nonempty tasks || all_done order m then Some (m, tasks) else
+  match polls with
+  | 0 => None                                   (* ii > 10 *)
+  | S p => let (m', tasks') := poll pd order m in stall p pd order m' tasks'
+  end.
+
+Fixpoint launch (k : nat) (tasks futures futured : list node) : list node * list node :=
+  match tasks with
+  | [] => (futures, futured)
+  | j :: r => if negb (memb j futured) && Nat.ltb (List.length futures) k
+              then launch k r (futures ++ [j]) (futured ++ [j])
+              else launch k r futures futured
+  end.
+
+(* oracle i = (which pending future completes at the i-th wake-up, does it fail) *)
+Fixpoint async_loop (fuel : nat) (pd : dict) (order : list node) (k : nat) (oracle : nat -> nat * bool)
+         (i : nat) (m : smap) (tasks futures futured ran : list node) : outcome :=
+  if nonempty tasks || nonempty futures || negb (all_done order m) then
+    match fuel with
+    | 0 => OutOfFuel
+    | S f =>
+        match (if nonempty tasks || nonempty futures then Some (m, tasks) else stall 11 pd order m tasks) with
+        | None => StallError
+        | Some (m1, tasks1) =>
+            let (futures1, futured1) := launch k tasks1 futures futured in
+            match futures1 with
+            | [] => let (m2, tasks2) := poll pd order m1 in
+                    async_loop f pd order k oracle i m2 tasks2 futures1 futured1 ran
+            | _ :: _ =>
+                let c := oracle i in
+                let j := nth (fst c mod List.length futures1) futures1 0 in
+                let m1' := sset m1 j (if snd c then Errored else Succ) in
+                let futures2 := match remove_one Nat.eqb j futures1 with Some l => l | None => futures1 end in
+                let (m2, tasks2) := poll pd order m1' in
+                async_loop f pd order k oracle (S i) m2 tasks2 futures2 futured1 (ran ++ [j])
+            end
+        end
+    end
+  else Finished ran (snapshot_of order m).
+Definition run_async (fuel : nat) (pd : dict) (order : list node) (k : nat) (oracle : nat -> nat * bool) : outcome :=
+  let m0 : smap := fun _ => NotStarted in
+  let (m1, tasks) := poll pd order m0 in
+  async_loop fuel pd order k oracle 0 m1 tasks [] [] [].
+
+(* DiGraph(name=...) followed by a construction history; None when a call raised or left the
+   construction domain *)
+Definition run_build_from_empty (ops : list op) : option graph :=
+  match init [] [] with
+  | Ok g0 => if run_build g0 ops then match run g0 ops with Ok g => Some g | Err _ => None end else None
+  | Err _ => None
+  end.
